@@ -182,7 +182,7 @@ def cmd_check(prop, tier, seed, only=None, jobs=None, verbose=False):
         if only and hname not in only:
             continue
         cubes = h['cubes'](tier, seed)
-        budget = h.get('budget_s', {}).get(tier, 600 if tier == 'quick'
+        budget = h.get('budget_s', {}).get(tier, 300 if tier == 'quick'
                                            else 3000)
         for params in cubes:
             items.append((hname, params, budget))
